@@ -35,6 +35,7 @@ RT_CLASSES = [
     (re.compile(rb"^'for' step is zero"), b"forstep"),
     (re.compile(rb"^'for' (initial value|limit|step)"), b"forprep"),
 ]
+CO_MSGS = re.compile(rb"^cannot resume (dead|non-suspended|running) coroutine|^cannot resume")
 BADARG = re.compile(rb"(#\d+ must be|arguments? needed|bad argument|out of range|must be an? |expected, got|value expected|wrong number of arguments|invalid option)")
 POS = re.compile(rb"^((?:chunk:\d+: )*)(.*)$", re.S)
 
@@ -42,10 +43,14 @@ POS = re.compile(rb"^((?:chunk:\d+: )*)(.*)$", re.S)
 def norm_str(b):
     m = POS.match(b)
     pre, msg = m.group(1), m.group(2)
-    if msg.startswith(b"#"):
-        if msg == b"#badarg":
-            return b"#badarg"
+    if re.match(rb"^#[a-z0-9]+$", msg):
+        if msg in (b"#badarg", b"#costate", b"#yieldoutside"):
+            return msg
         return b
+    if CO_MSGS.search(msg):
+        return b"#costate"
+    if msg.startswith(b"attempt to yield from outside") or msg.startswith(b"cannot yield from main"):
+        return b"#yieldoutside"
     for rx, cls in RT_CLASSES:
         if rx.search(msg):
             return pre + b"#" + cls if pre else b"?:#" + cls
